@@ -101,7 +101,7 @@ func asPath(v any) ([]any, bool) {
 		if _, isStr := k.(string); isStr {
 			continue
 		}
-		if i, ok := idxOf(k); !ok || i > 1000 {
+		if i, ok := idxOf(k); !ok || i > 2000 {
 			return nil, false
 		}
 	}
@@ -176,7 +176,7 @@ func (c retSetCase) expectedBase(in any) (any, bool) {
 	case "input", "collect":
 		return in, true
 	case "range":
-		if c.K < 0 || c.K > 64 || !settable(in, q) {
+		if c.K < 0 || c.K > 2000 || !settable(in, q) {
 			return nil, false
 		}
 		return setRef(in, q, rangeArr(c.K)), true
@@ -189,7 +189,7 @@ func (c retSetCase) expectedBase(in any) (any, bool) {
 		return setRef(in, q, append([]any{}, a[:c.K]...)), true
 	case "setpath":
 		p := append(append([]any{}, q...), c.K)
-		if c.K < 0 || c.K > 64 || !settable(in, p) {
+		if c.K < 0 || c.K > 2000 || !settable(in, p) {
 			return nil, false
 		}
 		return setRef(in, p, c.Y.X), true
